@@ -319,3 +319,42 @@ MANIFEST = dict(
     level_text='C15_one_session_per_id, C15_no_sharing, C15_cap and C15_no_credit_no_session are proved for every reachable state of every interleaving of any number of connections, closures, terminations, uploads, admin changes (no bound). The cap theorem is per ActiveUser record and per period in which the configured cap is bounded; "same UID and session id => same session" across records needs C17\'s ownership (C15_same_uid_sid_given_ownership), which is false of the code as it is (F5) and proved for the repaired model.',
     level_note='The key is modelled as session identity; the reply sealing itself is C06\'s. Trusted: Coq kernel, the hand model, lockscan, the harness.',
     design_ref='DESIGN.md section 6, C15; O4')
+
+
+# ---- a fault on ONE connection of a session (the server cannot write its reply): its siblings keep their session and key,
+# later connections of the pair join it (oracle only: the panel model has no failing writes)
+def reply_faults(ctx, verdict):
+    scs = []
+    for i, (uid, others) in enumerate([(9, 3), (1, 2), (9, 8)]):
+        phases = ['H%d.1x%d,%d.2x2' % (uid, others, uid), 'W%d.1' % uid, 'H%d.1x%d' % (uid, others), 'W%d.1' % uid, 'W%d.1' % uid, 'H%d.1x2,%d.2x1' % (uid, uid)]
+        expect = [dict(kind='H', pairs=[[uid, 1, others, 'all'], [uid, 2, 2, 'all']]), dict(kind='W'), dict(kind='H', pairs=[[uid, 1, others, 'all']]),
+                  dict(kind='W'), dict(kind='W'), dict(kind='H', pairs=[[uid, 1, 2, 'all'], [uid, 2, 1, 'all']])]
+        scs.append(dict(id='rf%d' % i, users='1:9:1000000000:1000000000:2000,2:9:1000000000:1000000000:2000,b9', phases=phases, expect=expect, caps={1: 9, 2: 9, 9: BIG}))
+    lines = ['%s 1000 %s %s' % (sc['id'], sc['users'], ' '.join(sc['phases'])) for sc in scs]
+    rc, log, out, dt = panellib.run_go(ctx, lines, 'replyfaults', test='TestVerifC15', files=('c15_test.go', 'c17_common_test.go'), race=True)
+    go = panellib.parse_go(out)
+    broken = []
+    if rc != 0 or len(go['obs']) < len(scs):
+        broken.append(('Go driver TestVerifC15 (reply-write faults) failed rc=%d' % rc, log[-3000:]))
+    n = 0
+    for sc in scs:
+        io = go['obs'].get(sc['id'])
+        if io is None:
+            continue
+        for sig, msg in oracle(sc, io.split(' ')):
+            n += 1
+            if n <= 2:
+                verdict.oracle_failure(sig + ':' + sc['id'], 'C15 oracle (one connection of the pair could not be sent its reply in the W phases): ' + msg,
+                                       dict(case=dict(id=sc['id'], users=sc['users'], phases=sc['phases'], expect=sc['expect'], caps=sc['caps']), implementation=io,
+                                            how='python3 tools/check.py C15 --replay <this file>'))
+    verdict.cov['reply_fault_scenarios'] = dict(scenarios=len(scs), oracle_failures=n)
+    return broken
+
+
+_corr_before_faults = correspondence
+
+
+def correspondence(ctx, verdict, pr):
+    res = _corr_before_faults(ctx, verdict, pr)
+    res['broken'] += reply_faults(ctx, verdict)
+    return res
